@@ -382,11 +382,22 @@ pub fn run(case: &Value) -> Value {
     let parser = LazyParser { items, delivered: 0 };
     let use_before = case["before_hook"].as_bool().unwrap_or(false);
     ST.with(|s| s.borrow_mut().use_before = use_before);
-    let mut evs = match (use_before, case["after_hook"].as_bool().unwrap_or(false)) {
-        (true, true) => r.before(before_hook).after(after_hook).run(parser, cli).boxed_local(),
-        (true, false) => r.before(before_hook).run(parser, cli).boxed_local(),
-        (false, true) => r.after(after_hook).run(parser, cli).boxed_local(),
-        (false, false) => r.run(parser, cli).boxed_local(),
+    // `custom_which`: a user classifier (same classification as the default one: `@serial` on the scenario, its rule or
+    // its feature) installed LAST in the builder chain — every builder method must carry the other settings over
+    fn classify(f: &gherkin::Feature, r: Option<&gherkin::Rule>, s: &gherkin::Scenario) -> runner::basic::ScenarioType {
+        let serial = s.tags.iter().chain(r.iter().flat_map(|r| &r.tags)).chain(&f.tags).any(|t| t == "serial");
+        if serial { runner::basic::ScenarioType::Serial } else { runner::basic::ScenarioType::Concurrent }
+    }
+    let custom_which = case["custom_which"].as_bool().unwrap_or(false);
+    let mut evs = match (use_before, case["after_hook"].as_bool().unwrap_or(false), custom_which) {
+        (true, true, false) => r.before(before_hook).after(after_hook).run(parser, cli).boxed_local(),
+        (true, false, false) => r.before(before_hook).run(parser, cli).boxed_local(),
+        (false, true, false) => r.after(after_hook).run(parser, cli).boxed_local(),
+        (false, false, false) => r.run(parser, cli).boxed_local(),
+        (true, true, true) => r.before(before_hook).after(after_hook).which_scenario(classify).run(parser, cli).boxed_local(),
+        (true, false, true) => r.before(before_hook).which_scenario(classify).run(parser, cli).boxed_local(),
+        (false, true, true) => r.after(after_hook).which_scenario(classify).run(parser, cli).boxed_local(),
+        (false, false, true) => r.which_scenario(classify).run(parser, cli).boxed_local(),
     };
 
     let flag = Arc::new(Flag(AtomicBool::new(true)));
